@@ -38,7 +38,8 @@ impl Property for C19 {
     }
     fn rule(&self) -> String {
         "case = (suite, batch size 0..64 with 0, 1, 2 and >= 32 each frequent, number of distinct keys, invalid-item pattern in {none, one, \
-         two, many, complementary z pair (z_i+d, z_j-d), complementary R pair (R_i+D, R_j-D), complementary pair under different keys, \
+         two, many, complementary z pair (z_i+d, z_j-d; in half of them d = -z_i so that one response is zero, in a quarter the pair \
+         heads the queue), complementary R pair (R_i+D, R_j-D), complementary pair under different keys, \
          swapped signatures}, positions, invalid kind in {wrong message, wrong key, z+-delta, R+D, signature of another item}, verifier \
          randomness tape). Oracle: Verifier::verify is Ok iff every item's VerifyingKey::verify is Ok; the empty batch is rejected; \
          Item::verify_single agrees with VerifyingKey::verify and (sampled) with the independent verifier. One evaluation per batch. \
@@ -91,6 +92,8 @@ impl Property for C19 {
             ("pattern:complementary-z".into(), m),
             ("pattern:complementary-R".into(), m),
             ("pattern:complementary-different-keys".into(), m),
+            ("complementary:zero-response".into(), 10),
+            ("complementary:zero-response-at-head".into(), 10),
             ("invalid-last-position".into(), 5),
             ("invalid-first-position".into(), 5),
         ];
@@ -174,10 +177,18 @@ fn check<C: Suite>(case: &Case, ctx: &mut Ctx) -> CheckResult {
     if n == 1 && pattern >= 2 {
         pattern = 1;
     }
-    let a = idx(case.pos_a, n.max(1));
+    let mut a = idx(case.pos_a, n.max(1));
     let mut b = idx(case.pos_b, n.max(1));
     if n >= 2 && b == a {
         b = (a + 1) % n;
+    }
+    // complementary z pairs: one case in four removes the whole response of item a (z_a = 0, the other item carries
+    // z_b + z_a), and one more in four does so for the two items at the head of the queue, where a verifier's
+    // accumulators are still empty
+    let zero_response = matches!(pattern, 4 | 6) && n >= 2 && (case.seed >> 8) % 4 < 2;
+    if zero_response && (case.seed >> 8) % 4 == 0 {
+        a = 0;
+        b = 1;
     }
     let kind = KINDS[(case.kind % 6) as usize];
     let corrupt = |items: &mut Vec<It<C>>, i: usize, kind: &str, rng: &mut Sm, sks: &Vec<SigningKey<C>>| {
@@ -239,7 +250,11 @@ fn check<C: Suite>(case: &Case, ctx: &mut Ctx) -> CheckResult {
                     items[p] = It { vk: VerifyingKey::<C>::from(sk), sig: sk.sign(Tape::random(rng.next()), &msg), msg };
                 }
             }
-            let d = sc_rand_nonzero::<C>(rng.next());
+            let mut d = sc_rand_nonzero::<C>(rng.next());
+            if zero_response {
+                d = zero::<C>() - *items[a].sig.z();
+                ctx.label(if a == 0 && b == 1 { "complementary:zero-response-at-head" } else { "complementary:zero-response" });
+            }
             items[a].sig = Signature::<C>::new(*items[a].sig.R(), *items[a].sig.z() + d);
             items[b].sig = Signature::<C>::new(*items[b].sig.R(), *items[b].sig.z() - d);
         }
@@ -288,7 +303,7 @@ fn check<C: Suite>(case: &Case, ctx: &mut Ctx) -> CheckResult {
         }
     }
     let trivial = (pattern == 0 && n == 1) || (pattern == 1 && kind == "wrong-message" && n == 32 && a == 4);
-    ctx.eval(&format!("{n},{nkeys},{pname},{kind},{a},{b}"), !trivial);
+    ctx.eval(&format!("{n},{nkeys},{pname},{kind},{a},{b},{zero_response}"), !trivial);
     ctx.label(&format!("pattern:{pname}"));
     if pattern >= 1 && pattern <= 2 {
         ctx.label(&format!("kind:{kind}"));
